@@ -542,7 +542,8 @@ func c13Mutants(seeds []c13Seed, pairs bool) []c13Mutant {
 		}, "invalid-depth", s.Depth)
 		hdrMut("Overwrite", []string{"T", "F", "t", "X", "TT"}, func(v string) bool { return v != "T" && v != "F" && v != "t" }, "invalid-overwrite", s.Overwrite)
 		hdrMut("Destination", []string{"\x00missing", "%zz", "http://[::1", "/d/ok"}, func(v string) bool { return v != "/d/ok" }, "invalid-destination", s.Dest)
-		ctReads := (s.BodyKind == "ical" || s.BodyKind == "vcard") || s.NeedsXML
+		// RFC 4918 9.3.1: a MKCOL announcing a body of a type the server does not understand must be refused (415)
+		ctReads := (s.BodyKind == "ical" || s.BodyKind == "vcard") || s.NeedsXML || (s.Req.Method == "MKCOL" && s.Req.Body != "")
 		ctVals := []string{"\x00missing", "text/plain", ";;", "text/xml; charset=x", "application/xml;"}
 		if base, ok := s.Req.Header["Content-Type"]; ok {
 			// the right media type with malformed parameters
